@@ -117,6 +117,11 @@ impl Oracle {
                     max_volatility_accumulator as int, tick_group_size as int, major_swap_threshold_ticks as int),
         r is Ok ==> final(self).adaptive_fee_constants.valid_for(tick_spacing as int) && is_vars_default(final(self).adaptive_fee_variables)
             && final(self).whirlpool == whirlpool && final(self).trade_enable_timestamp == (match trade_enable_timestamp { Some(t) => t, None => 0u64 })
+            // the stored constants are exactly the arguments (in this order)
+            && final(self).adaptive_fee_constants.filter_period == filter_period && final(self).adaptive_fee_constants.decay_period == decay_period
+            && final(self).adaptive_fee_constants.reduction_factor == reduction_factor && final(self).adaptive_fee_constants.adaptive_fee_control_factor == adaptive_fee_control_factor
+            && final(self).adaptive_fee_constants.max_volatility_accumulator == max_volatility_accumulator && final(self).adaptive_fee_constants.tick_group_size == tick_group_size
+            && final(self).adaptive_fee_constants.major_swap_threshold_ticks == major_swap_threshold_ticks
             // the variables start inside the reachable-state invariant
             && inv14(final(self).adaptive_fee_constants, final(self).adaptive_fee_variables),
 //@ end
